@@ -456,7 +456,9 @@ std::vector<Token> get_replacement(
         break;
       }
       case Theo::Token::TEMP_VAL: {
-        std::string text = cand.text + ":" + cand.file + ":" +
+        // name by the position of the body's first token: one name per
+        // temporary even when the body continues in an included file
+        std::string text = cand.text + ":" + def.replacement[0].file + ":" +
                            std::to_string(def.replacement[0].line) + "_(M" +
                            std::to_string(pass) + ")";
         Token next = cand;
